@@ -4,7 +4,10 @@
    DataRow::~DataRow / DataTable::pvDeallocateFreeRaws / pvAllocateRaw / pvDestroyRaws on every run and whose extracted
    code is replayed against event traces of the real DataTable. *)
 From Coq Require Import List Arith Bool Permutation.
-From C19 Require Import Treiber TreiberInv TreiberThms TreiberRace TreiberLive TreiberVariant TreiberExact TreiberBoundary TreiberRows TreiberExamples.
+From C19 Require Import Treiber TreiberInv TreiberThms TreiberRace TreiberLive TreiberVariant TreiberExact TreiberBoundary TreiberRows TreiberTables FreeListRefine PoolAssumptions TreiberExamples.
+From Coq Require Import ZArith.
+From MomoCommon Require Import GenPrelude.
+From C19 Require FreeListPrims Gen_DataRow Gen_FreeListOwner.
 Import ListNotations.
 
 (* The 16-clause invariant holds in every state reachable under ANY schedule. *)
@@ -337,6 +340,91 @@ Theorem C19_movector_keeping_raw_refuted :
     o_raw (objs ls 0) = Some 0 /\ o_raw (objs ls 1) = Some 0 /\ o_live (objs ls 0) = true /\ o_live (objs ls 1) = true /\ ~ linv ls.
 Proof. exact movector_keeping_raw_refuted. Qed.
 Print Assumptions C19_movector_keeping_raw_refuted.
+
+(* ---- The push / take-all / check steps of the machine ARE the cxx2coq translations of the real functions
+   (Gen_DataRow.destroy = DataRow::~DataRow, Gen_FreeListOwner.pvDeallocateFreeRaws / pvAllocateRaw, regenerated from the
+   headers on every run), executed without interruption on the memory of a model state (head at address 1, link word of
+   buffer r at address r + 2).  Whatever the weak CAS does spuriously (as long as one attempt within the fuel is genuine): *)
+Theorem C19_generated_destructor_is_model_push :
+  forall s t r sp fuel cl,
+  dpcs s t = Idle -> status s r = Detached -> (exists k, (k < fuel)%nat /\ sp k = false) ->
+  exists s' m',
+    run s [DBegin t r; DLoad t; DLink t; DCas t false] = Some s' /\
+    Gen_DataRow.destroy sp fuel (addr r) hd cl (mem_of s) = Ok (tt, m') /\
+    forall a, m' a = mem_of s' a.
+Proof. exact generated_destructor_is_model_push. Qed.
+Print Assumptions C19_generated_destructor_is_model_push.
+
+Theorem C19_generated_destructor_of_empty_row_is_noop :
+  forall sp fuel fl cl mem, Gen_DataRow.destroy sp fuel 0%Z fl cl mem = Ok (tt, mem).
+Proof. exact generated_destructor_of_empty_row. Qed.
+Print Assumptions C19_generated_destructor_of_empty_row_is_noop.
+
+(* the translated pvDeallocateFreeRaws nulls the head and hands to the pool exactly the buffers, in exactly the order, that the
+   machine reclaims by OExchange; (ORead; OFree)*; ODone *)
+Theorem C19_generated_drain_is_model_drain :
+  forall s pool fuel,
+  inv s -> own s = OIdle -> (length (shared s) < fuel)%nat ->
+  exists s' m',
+    run s (OExchange :: walk_labels (length (shared s))) = Some s' /\
+    Gen_FreeListOwner.pvDeallocateFreeRaws hd fuel (mem_of s) pool = Ok (tt, m', log_of pool (shared s)) /\
+    m' hd = 0%Z /\ head s' = None /\ own s' = OIdle /\
+    reclaimed s' = rev (map (fun r => (r, gen s r)) (shared s)) ++ reclaimed s.
+Proof. exact generated_drain_is_model_drain. Qed.
+Print Assumptions C19_generated_drain_is_model_drain.
+
+(* pvAllocateRaw: its test is the exact machine's XCheck; it allocates without draining iff the head is null *)
+Theorem C19_generated_check_is_model_check :
+  forall xs xs', stepx xs XCheck = Some xs' -> xo xs' = XChecked (negb (Z.eqb (mem_of (base xs) hd) 0)).
+Proof. exact generated_check_is_model_check. Qed.
+Print Assumptions C19_generated_check_is_model_check.
+
+Theorem C19_generated_allocate_skips_drain_iff_head_null :
+  forall pa fuel s pool, head s = None ->
+  Gen_FreeListOwner.pvAllocateRaw hd pa fuel (mem_of s) pool = Ok (pa pool, mem_of s, pool).
+Proof. exact generated_allocate_skips_drain_iff_head_null. Qed.
+Print Assumptions C19_generated_allocate_skips_drain_iff_head_null.
+
+Theorem C19_generated_allocate_drains_when_head_nonnull :
+  forall pa fuel s pool, inv s -> own s = OIdle -> head s <> None -> (length (shared s) < fuel)%nat ->
+  exists m', Gen_FreeListOwner.pvAllocateRaw hd pa fuel (mem_of s) pool
+             = Ok (pa (log_of pool (shared s)), m', log_of pool (shared s)) /\ m' hd = 0%Z.
+Proof. exact generated_allocate_drains_when_head_nonnull. Qed.
+Print Assumptions C19_generated_allocate_drains_when_head_nonnull.
+
+(* ---- Table OBJECTS (move construction, Swap, move assignment move the Crew pointer; the list head stays in the Crew's
+   Data): for every schedule exactly one table object owns the crew and every Row holding a buffer points to that crew's head *)
+Theorem C19_rows_point_to_the_owning_table :
+  forall ts, reachable_t ts ->
+  one_owner ts /\ linv (tl ts) /\
+  forall o r, o_live (objs (tl ts) o) = true -> o_raw (objs (tl ts) o) = Some r -> o_fl (objs (tl ts) o) = true.
+Proof. exact rows_point_to_the_owning_table. Qed.
+Print Assumptions C19_rows_point_to_the_owning_table.
+
+Theorem C19_table_object_ops_frame :
+  forall ts l ts', stept ts l = Some ts' -> match l with TL _ => True | _ => tl ts' = tl ts end.
+Proof. exact table_object_ops_frame. Qed.
+Print Assumptions C19_table_object_ops_frame.
+
+Theorem C19_table_moved_while_rows_detached_example :
+  exists ts, runt tinit [TL (LNew 1 0 None); TMoveCtor 1 0; TL (LDestroy 3 1); TL (LB (DLoad 3)); TL (LB (DLink 3)); TL (LB (DCas 3 false));
+                         TSwap 0 1; TL (LB OExchange)] = Some ts /\
+    tab ts 0 = Some 0 /\ tab ts 1 = None /\ drain (lbase (tl ts)) = [0].
+Proof. exact ex_table_moved_while_rows_detached. Qed.
+Print Assumptions C19_table_moved_while_rows_detached_example.
+
+(* ---- MemPool: the ONLY hypothesis the machine makes about Allocate (see PoolAssumptions.v for the full list and the C09
+   theorems discharging it): it never returns an outstanding block.  Under it the allocation step is always enabled. *)
+Theorem C19_alloc_enabled_under_pool_assumption :
+  forall (palloc : list row -> row), (forall out, ~ In (palloc out) out) ->
+  forall s out g, own s = OIdle -> outstanding_of s out ->
+  exists s', step s (OAlloc (palloc out) g) = Some s' /\ outstanding_of s' (palloc out :: out).
+Proof. exact alloc_enabled_under_A_fresh. Qed.
+Print Assumptions C19_alloc_enabled_under_pool_assumption.
+
+Theorem C19_pool_assumption_satisfiable : forall out, ~ In (next_block out) out.
+Proof. exact next_block_fresh. Qed.
+Print Assumptions C19_pool_assumption_satisfiable.
 
 (* Non-vacuity: a 3-thread schedule with a genuinely failed CAS ... *)
 Theorem C19_nonvacuous_failed_cas :
